@@ -9,7 +9,9 @@ rolled-back-to state unless derived again since).  The two places where the code
 the reference are named deviations (ForkEdgeUnrecorded, RollbackSkipsInvalidParent); with both
 switched off the machine equals the reference on every history (TLC), with each one switched on
 TLC produces the counterexample.  spec/seq/HandlesWf.tla lifts this to the scheduler: a chain of
-handle-writing tasks re-executed while bodies are edited and reverted.
+handle-writing tasks re-executed while bodies are edited and reverted, including runs that end in an
+error because a stage fails after its side effect (the rollback of the state the failing job started
+from has happened by then: it precedes execution).
 
 Binding, both directions:
   spec -> code: every behaviour of Handles_Gen (exhaustive tree for small MaxOps, -simulate for long
@@ -45,7 +47,8 @@ META = {
                   "calls, merges, 1-2 names) that the is_valid flags of the transcribed backend equal "
                   "the reference lineage model unless one of two named deviations has fired, that "
                   "the repaired machine equals it always, and -- on every edit/revert history of a "
-                  "3-stage handle-writing workflow -- that a stored result holding an invalidated "
+                  "3-stage handle-writing workflow, runs that fail after a side effect included -- that a "
+                  "stored result holding an invalidated "
                   "state is never replayed except through those deviations.  Every behaviour of a "
                   "small exhaustive tree, thousands of simulated ones and the workflow histories are "
                   "executed on the real backend / scheduler and compared step by step; random longer "
@@ -74,6 +77,10 @@ WHAT = {
         "they derive from the rolled-back-to state and were not derived again",
 }
 ALL_DEV = '{"ForkEdgeUnrecorded", "RollbackSkipsInvalidParent"}'
+
+
+class StageFailed(Exception):
+    """Raised by the failing version of a workflow stage (after its side effect)."""
 
 
 class VH(Handle):
@@ -375,6 +382,26 @@ def inner{i}(c):
 def s{i}(c):
     return inner{i}(c.fork("a"))
 '''
+# the writing task performs its side effect and then raises: the run ends in an error at this stage
+PLAIN_FAIL = '''
+@task(namespace="{ns}")
+def s{i}(c):
+    LOG.append({i})
+    body = "fails after its side effect"
+    raise StageFailed("stage {i}")
+'''
+UFORK_FAIL = '''
+@task(namespace="{ns}")
+def inner{i}(c):
+    LOG.append({i})
+    body = "fails after its side effect"
+    raise StageFailed("stage {i}")
+
+
+@task(namespace="{ns}")
+def s{i}(c):
+    return inner{i}(c.fork("a"))
+'''
 WF = '''
 @task(namespace="{ns}", cache=False)
 def wf():
@@ -384,12 +411,16 @@ def wf():
 '''
 
 
-def gen_module(ctx: Ctx, ns: str, name: str, kinds: list, vers: list, tag: str, kwbits: int = 0):
+def gen_module(ctx: Ctx, ns: str, name: str, kinds: list, vers: list, tag: str, kwbits: int = 0, fail: int = 0):
     """kwbits: bit i-1 set = stage i receives its handle by keyword (the lineage model does not depend on
-    how the argument is passed; the code must not either)."""
-    src = "from redun import task\nfrom harness.props.c25 import VH\n\nLOG = []\n"
+    how the argument is passed; the code must not either).  fail: stage whose writing task raises after
+    its side effect (0 = none)."""
+    src = "from redun import task\nfrom harness.props.c25 import VH, StageFailed\n\nLOG = []\n"
     for i, (k, v) in enumerate(zip(kinds, vers), start=1):
-        src += (PLAIN if k == "plain" else UFORK).format(ns=ns, i=i, ver=v)
+        if i == fail:
+            src += (PLAIN_FAIL if k == "plain" else UFORK_FAIL).format(ns=ns, i=i)
+        else:
+            src += (PLAIN if k == "plain" else UFORK).format(ns=ns, i=i, ver=v)
     chain = "\n".join(f"    c = s{i}(c=c)" if (kwbits >> (i - 1)) & 1 else f"    c = s{i}(c)"
                       for i in range(1, len(kinds) + 1))
     src += WF.format(ns=ns, name=name, chain=chain)
@@ -425,11 +456,20 @@ def run_workflow_history(ctx: Ctx, rep: Reporter, sched, wb: dict, uniq: str, so
     status = "ok"
     some_replay = some_exec = False
     for n, run in enumerate(wb["runs"]):
-        mod = gen_module(ctx, ns, name, wb["kinds"], run["vers"], str(n), kwbits)
+        fail = run.get("fail", 0)
+        mod = gen_module(ctx, ns, name, wb["kinds"], run["vers"], str(n), kwbits, fail)
+        failed = False
         try:
             sched.run(mod.wf())
+        except StageFailed:
+            failed = True
         except Exception as e:
             rep.report(f"scheduler raised {type(e).__name__}: {e} in run {n + 1}",
+                       {"source": source, "wf": wb, "at": n})
+            return "viol"
+        if failed != bool(fail):
+            rep.report(f"run {n + 1} {'ended in the error of stage ' + str(fail) if failed else 'succeeded'} but the "
+                       f"model says it {'fails at stage ' + str(fail) if fail else 'succeeds'}",
                        {"source": source, "wf": wb, "at": n})
             return "viol"
         counts = {i: mod.LOG.count(i) for i in set(mod.LOG)}
@@ -461,12 +501,14 @@ def run_workflow_history(ctx: Ctx, rep: Reporter, sched, wb: dict, uniq: str, so
                                 "deviation": d}, key=KEYS[d])
             continue
         rep.report(f"run {n + 1} executed stages {got}; reference model {exF}, as-built model {exA} "
-                   f"(kinds {wb['kinds']}, versions {[r['vers'] for r in wb['runs'][: n + 1]]})",
+                   f"(kinds {wb['kinds']}, versions {[r['vers'] for r in wb['runs'][: n + 1]]}, "
+                   f"failing stage per run {[r.get('fail', 0) for r in wb['runs'][: n + 1]]})",
                    {"source": source, "wf": wb, "at": n, "executed": got, "reference": exF, "asbuilt": exA})
         return "viol"
     stats[status] = stats.get(status, 0) + 1
     if some_replay and some_exec:
-        ctx.distinct({"kinds": wb["kinds"], "vers": [r["vers"] for r in wb["runs"]]})
+        ctx.distinct({"kinds": wb["kinds"], "vers": [r["vers"] for r in wb["runs"]],
+                      "fail": [r.get("fail", 0) for r in wb["runs"]]})
     return status
 
 
@@ -478,10 +520,11 @@ def handles_cfg(spec: str, names: str, keys: str, ukeys: str, calls: str, depth:
             f"{extra}CHECK_DEADLOCK FALSE\n")
 
 
-def wf_cfg(spec: str, dev: str, stages: int, runs: int, extra: str) -> str:
+def wf_cfg(spec: str, dev: str, stages: int, runs: int, extra: str, fail: bool = True) -> str:
+    failat = "{" + ", ".join(str(i) for i in range(0, stages + 1 if fail else 1)) + "}"
     return (f"SPECIFICATION {spec}\nCONSTANTS\n Names = {{\"conn\"}}\n Keys = {{\"1\"}}\n UKeys = {{\"a\"}}\n"
             f" Calls = {{}}\n MaxDepth = 0\n MaxOps = 0\n Dev = {dev}\n Shapes = {{}}\n NStages = {stages}\n"
-            f" MaxRuns = {runs}\n Versions = {{1, 2}}\n StageKinds = {{\"plain\", \"ufork\"}}\n"
+            f" MaxRuns = {runs}\n Versions = {{1, 2}}\n StageKinds = {{\"plain\", \"ufork\"}}\n FailAt = {failat}\n"
             f"{extra}CHECK_DEADLOCK FALSE\n")
 
 
@@ -542,7 +585,7 @@ def run(ctx: Ctx) -> None:
     winv = ("VIEW WView\nINVARIANT AgreeF\nINVARIANT NeverReplayInvalidF\nINVARIANT AsBuiltUnlessFired\n"
             "INVARIANT OnlyForkEdge\nPROPERTY NoFastRevertF\n")
     # (quick tier: the invariants are checked in the generator runs of section 5)
-    for stages, nruns in ctx.pick([], [(3, 3), (2, 5)]):
+    for stages, nruns in ctx.pick([], [(3, 3), (2, 4)]):
         wres = expect_clean(run_tlc("seq/HandlesWf.tla", wf_cfg("WSpec", ALL_DEV, stages, nruns, winv),
                                     ctx.scratch, workers=ctx.pick(4, "auto"), timeout=1500),
                             f"HandlesWf invariants ({stages} stages, {nruns} runs)")
@@ -553,6 +596,15 @@ def run(ctx: Ctx) -> None:
                                    ctx.scratch, workers=4, timeout=600),
                            "NeverReplayInvalidA", "control: replay of an invalidated state through " + D1)
     ctx.add_tlc(res)
+    if not ctx.quick:
+        # what-if control: if a job rolled back only when it succeeds, a run that fails after its side effect
+        # would leave the old result valid and the next run would replay it
+        res = expect_violation(run_tlc("seq/HandlesWf.tla",
+                                       wf_cfg("WSpec", '{"NoRollbackOnFailure"}', 2, 3,
+                                              "VIEW WView\nINVARIANT NeverReplayInvalidA\n"),
+                                       ctx.scratch, workers=4, timeout=600),
+                               "NeverReplayInvalidA", "control: rollback only on success replays an invalidated state")
+        ctx.add_tlc(res)
     ctx.note("deviations", {KEYS[d]: WHAT[d] for d in (D1, D2)})
     _dbg(ctx, "model checking done")
 
@@ -631,7 +683,7 @@ def run(ctx: Ctx) -> None:
 
     # ---- 5. workflow histories through a real Scheduler -------------------------------------------
     wbehs = []
-    for stages, nr, sim in ctx.pick([(2, 4, None), (3, 3, "num=20")], [(3, 3, None)]):
+    for stages, nr, sim in ctx.pick([(2, 3, None), (3, 3, "num=20")], [(3, 3, None)]):
         wg = run_tlc("seq/HandlesWf_Gen.tla", wf_cfg("WGSpec", ALL_DEV, stages, nr, winv.split("VIEW WView\n")[1]),
                      ctx.scratch,
                      workers=1 if sim else 4, simulate=sim, depth=nr + 3 if sim else None,
@@ -640,13 +692,24 @@ def run(ctx: Ctx) -> None:
         ctx.add_tlc(wg)
         wbehs += wg.recs("WBEH")
     ctx.require(len(wbehs) >= 250, f"too few workflow behaviours: {len(wbehs)}")
-    # all histories on which the as-built model leaves the reference are candidates; sample both classes
-    dev_h = [w for w in wbehs if any(r["exA"] != r["exF"] for r in w["runs"])]
-    plain_h = [w for w in wbehs if not any(r["exA"] != r["exF"] for r in w["runs"])]
+    # classes to sample from: histories on which the as-built model leaves the reference (dev_h); histories
+    # in which a run fails after its side effect and a later run executes a stage ONLY because the failed
+    # job had rolled its start state back before it ran (fail_h: the what-if system W differs); the rest
+    def differs(w, a, b):
+        return any(r[a] != r[b] for r in w["runs"])
+
+    dev_h = [w for w in wbehs if differs(w, "exA", "exF")]
+    fail_h = [w for w in wbehs if differs(w, "exW", "exF") and not differs(w, "exA", "exF")]
+    plain_h = [w for w in wbehs if not differs(w, "exA", "exF") and not differs(w, "exW", "exF")]
+    ctx.require(len(fail_h) >= 20, f"too few histories that need the rollback of a failed job: {len(fail_h)}")
     ctx.rng.shuffle(dev_h)
+    ctx.rng.shuffle(fail_h)
     ctx.rng.shuffle(plain_h)
     three = [w for w in wbehs if len(w["kinds"]) == 3][: ctx.pick(10, 0)]
-    chosen = dev_h[: ctx.pick(5, 60)] + plain_h[: ctx.pick(5, 90)] + [w for w in three if w not in dev_h[:5]]
+    chosen = (dev_h[: ctx.pick(4, 50)] + fail_h[: ctx.pick(6, 60)] + plain_h[: ctx.pick(4, 70)]
+              + [w for w in three if w not in dev_h[:4] and w not in fail_h[:6]])
+    ctx.note("workflow_history_classes", {"asbuilt_differs": len(dev_h), "needs_rollback_of_failed_job": len(fail_h),
+                                          "other": len(plain_h)})
     sched = new_scheduler()
     wstats: dict = {}
     for n, wb in enumerate(chosen):
